@@ -13,167 +13,13 @@ from ..script import *  # noqa
 from ..lib_real import *  # noqa
 from ..lib_alg import *  # noqa
 
+from ..lib_round import *  # noqa
+
 FA = 'fedjax/algorithms/fed_avg.py'
-TU = 'fedjax/core/tree_util.py'
-DELTA = z3.Function('client_delta_at_c', ClientT, TreeId, R)   # final(w, fold(step, init(w, key), batches)) at the coordinate
-DSUM = z3.Function('DSUM', ClientSeq, TreeId, I, R)            # sum_{i<k} n_i * delta_i
-NSUM = z3.Function('NSUM', ClientSeq, I, R)                    # sum_{i<k} n_i
-
-
-def sum_axioms():
-  s = z3.Const('ss', ClientSeq)
-  k = z3.Int('sk')
-  w = z3.Const('sw', TreeId)
-  return [
-      z3.ForAll([s, w], z3.And(DSUM(s, w, 0) == 0, NSUM(s, 0) == 0)),
-      z3.ForAll([s, w, k], z3.Implies(z3.And(k >= 1, k <= z3.Length(s)), DSUM(s, w, k) ==
-                                      DSUM(s, w, k - 1) + DSLEN(CDS(s[k - 1])) * DELTA(s[k - 1], w)),
-                patterns=[DSUM(s, w, k)]),
-      z3.ForAll([s, k], z3.Implies(z3.And(k >= 1, k <= z3.Length(s)),
-                                   NSUM(s, k) == NSUM(s, k - 1) + DSLEN(CDS(s[k - 1]))),
-                patterns=[NSUM(s, k)]),
-      z3.ForAll([s, k], z3.Implies(z3.And(k >= 0, k <= z3.Length(s)), NSUM(s, k) >= 0), patterns=[NSUM(s, k)]),
-  ]
-
-
-def sum_unfold(seq, w, k):
-  """Instance of the defining recursion of DSUM / NSUM at k (quantifier-free:
-  refutations then come with a model)."""
-  return LemmaInst('sum.def', z3.Implies(z3.And(k >= 1, k <= z3.Length(seq)), z3.And(
-      DSUM(seq, w, k) == DSUM(seq, w, k - 1) + DSLEN(CDS(seq[k - 1])) * DELTA(seq[k - 1], w),
-      NSUM(seq, k) == NSUM(seq, k - 1) + DSLEN(CDS(seq[k - 1])), DSLEN(CDS(seq[k - 1])) >= 0)))
-
-
-def make_train_contract(holder, seq, hp, params_ref_getter, record):
-  """Contract of train_for_each_client = for_each_client(client_init, client_step, client_final)
-  (C02 *.fold / *.one): one (id, output) per input client, same order."""
-  def c_train(ctx, shared, clients):
-    ok = isinstance(clients, MappedClientsV) and clients.seq.eq(seq) and isinstance(clients.value, tuple) \
-        and len(clients.value) == 3
-    ctx.oblige('apply.clients', ok, detail='every input client is handed to for_each_client as (id, batches, key)')
-    if not ok:
-      raise PathDead()
-    cid, batches, key = clients.value
-    c = seq[clients.idx]
-    okb = is_z3(cid) and isinstance(batches, BatchesV) and isinstance(key, KeyV)
-    ctx.oblige('apply.triple', okb and z3.simplify(z3.And(
-        cid == CID(c), batches.term == SRB(CDS(c), hp), key.term == CKEY(c))),
-        detail="each client trains on ITS OWN shuffle_repeat_batch stream (the algorithm's client hparams) with ITS OWN key")
-    record['shared'] = shared
-    w = tree_tid(ctx, shared)
-
-    def dec(t):
-      return (CID(t), new_tree(holder['ctx'], DELTA(t, w), label='client delta'))
-    return SeqV(seq, Codec(ClientT, dec=dec))
-  return c_train
 
 
 def v_apply(p):
-  ex = p.extract(FA, 'federated_averaging.<locals>.apply')
-  ex_up = p.extract(FA, 'federated_averaging.<locals>.server_update')
-  ex_init = p.extract(FA, 'federated_averaging.<locals>.init')
-  seq = z3.Const('clients', ClientSeq)
-  n = z3.Length(seq)
-  hp = z3.Const('client_batch_hparams', HpT)
-  j0 = z3.Int('j0')
-  pval = z3.Real('server_params_at_c')
-  ptid = z3.Const('server_params', TreeId)
-  ost = z3.Const('server_opt_state', OptStateT)
-  holder, record = {}, {}
-  g = real_globals()
-  g['tree_util'] = SrcModule(TU, {'tree_l2_norm': Handler(lambda ctx, t: new_tree(ctx, ctx.fresh('norm', 'real')),
-                                                          'tree_l2_norm')})
-  sopt = OptimizerV(z3.Const('server_optimizer', OptimizerT))
-  g['server_optimizer'] = sopt
-  g['client_batch_hparams'] = HpV(hp)
-  g['train_for_each_client'] = Handler(make_train_contract(holder, seq, hp, None, record),
-                                       'train_for_each_client')
-  g['server_update'] = ex_up.funcv()   # sibling closure: inlined callee
-  eng = Engine(g)
-  eng.sources = [FA]
-  eng.on_empty_dict = lambda ctx: ctx.alloc(SymDictCell())
-
-  def inv(s):
-    k = to_z3(s.it)
-    ds = tree_val(s.ctx, s.raw('delta_params_sum'))
-    ns = to_z3(s['num_examples_sum'])
-    keys = s.raw('client_diagnostics').cell(s.ctx).keys
-    return dict(
-        pos=z3.And(0 <= k, k <= n),
-        sums=z3.And(ds == DSUM(seq, ptid, k), ns == NSUM(seq, k), NSUM(seq, k) >= 0),
-        diag=z3.And(z3.Length(keys) == k, z3.Implies(z3.And(0 <= j0, j0 < k), keys[j0] == CID(seq[j0]))))
-
-  loops = {0: Loop(inv=inv, expect='train_for_each_client',
-                   hints=lambda s: [sum_unfold(seq, ptid, to_z3(s.it))])}
-
-  def body(ctx):
-    holder['ctx'] = ctx
-    del sopt.calls[:]
-    ctx.model_vars.update(n_clients=n)
-    ctx.assume(z3.And(DSUM(seq, ptid, 0) == 0, NSUM(seq, 0) == 0))  # definition at 0
-    sp = new_tree(ctx, pval, 'param', 'server_state.params', tid=ptid)
-    SS = eng._resolve_in(ctx, FA, 'ServerState')[0]
-    eng.globals['ServerState'] = SS
-    st = ctx.alloc(ObjCell(SS, dict(params=sp, opt_state=OptStV(ost)), owner='param', label='server_state'))
-    kind, r = eng.run_function(ctx, ex.funcv(loops=loops), [st, ClientsV(seq)])
-    ctx.oblige('apply.noraise', kind == 'return')
-    if kind != 'return':
-      return
-    ok = isinstance(r, tuple) and len(r) == 2 and isinstance(r[0], Ref) and isinstance(r[0].cell(ctx), ObjCell)
-    ctx.oblige('apply.shape', ok, detail='returns (ServerState, diagnostics)')
-    if not ok:
-      return
-    ctx.oblige('apply.shared', record.get('shared') is sp, detail='clients start from the server parameters')
-    ctx.oblige('apply.server.once', len(sopt.calls) == 1,
-               detail='the server optimizer is applied exactly once per round (also when no example was seen)')
-    if len(sopt.calls) != 1:
-      return
-    gr, s_, p_ = sopt.calls[0]
-    N = NSUM(seq, n)
-    mean = z3.If(N > 0, DSUM(seq, ptid, n) / N, 0)
-    ctx.oblige('apply.post', z3.And(tree_val(ctx, gr) == mean) if (p_ is sp and isinstance(s_, OptStV)
-                                                                   and s_.term.eq(ost)) else False,
-               detail='server optimizer is applied to (example-weighted mean of client deltas, server opt state, '
-                      'server params); the mean is sum(n_i * delta_i) / sum(n_i), and exactly 0 when sum(n_i) = 0')
-    f = r[0].cell(ctx).fields
-    new_p, new_s = f.get('params'), f.get('opt_state')
-    okf = isinstance(new_p, Ref) and isinstance(new_s, OptStV)
-    ctx.oblige('apply.rounds', okf and r[0].addr != st.addr,
-               detail='the result is a fresh well-formed ServerState(params, opt_state): rounds compose')
-    if okf:
-      ctx.oblige('apply.state', z3.And(
-          tree_val(ctx, new_p) == OPT_P(sopt.term, mean, ost, pval),
-          new_s.term == OPT_S(sopt.term, tree_tid(ctx, gr), ost, ptid)),
-          detail='new params / opt state are exactly what the server optimizer returned')
-    d = r[1]
-    okd = isinstance(d, Ref) and isinstance(d.cell(ctx), SymDictCell)
-    ctx.oblige('apply.diag.type', okd)
-    if okd:
-      keys = d.cell(ctx).keys
-      ctx.oblige('apply.diag.one', z3.And(z3.Length(keys) == n, z3.Implies(
-          z3.And(0 <= j0, j0 < n), keys[j0] == CID(seq[j0]))),
-          detail='exactly one diagnostics entry per participating client (ids are pairwise distinct)')
-    old = st.cell(ctx).fields
-    ctx.oblige('frame.state', old['params'] is sp and sp.cell(ctx).valid and sp.cell(ctx).val.eq(pval),
-               detail="the caller's server state is neither modified nor donated")
-
-  p.verify('federated_averaging.apply', eng, body)
-
-  # server_update + init in isolation
-  def body_update(ctx):
-    del sopt.calls[:]
-    SS = eng._resolve_in(ctx, FA, 'ServerState')[0]
-    eng.globals['ServerState'] = SS
-    sp = new_tree(ctx, pval, 'param', tid=ptid)
-    st = ctx.alloc(ObjCell(SS, dict(params=sp, opt_state=OptStV(ost)), owner='param'))
-    m = new_tree(ctx, z3.Real('mean_delta'), 'param')
-    kind, r = eng.run_function(ctx, ex_up.funcv(), [st, m])
-    ok = kind == 'return' and len(sopt.calls) == 1 and sopt.calls[0][0] is m and sopt.calls[0][2] is sp
-    ctx.oblige('update.def', ok, detail='server_update applies the server optimizer to the mean delta')
-    kind, r = eng.run_function(ctx, ex_init.funcv(), [sp])
-    ctx.oblige('init.def', kind == 'return' and r.cell(ctx).fields['params'] is sp and
-               r.cell(ctx).fields['opt_state'].term.eq(OPT_INIT(sopt.term, ptid)))
-  p.verify('federated_averaging.server_update/init', eng, body_update)
+  verify_fedavg_round(p, FA, 'federated_averaging', 'federated_averaging')
 
 
 def v_client(p):
